@@ -70,6 +70,7 @@ def run(ctx: Context) -> None:
     ctx.rule(r2d_session_scope)
     ctx.rule(r2e_attribute_views)
     ctx.rule(r2f_identity_comparisons)
+    ctx.rule(r2g_constructor_keeps_components)
     ctx.rule(c04.r2_tables, pl)
     ctx.rule(c04.r5_picklable)
     ctx.rule(c04.r9_suffix_slices, pl)
@@ -373,3 +374,85 @@ def r2f_identity_comparisons(ctx: Context) -> None:
                                  f"({k.name} defines no __eq__): after a restore the stored object is an unpickled copy, so the branch is taken differently and the resumed run diverges", f, x)
                         break
     ctx.ok("R2.identity-comparison", "pickled-classes:comparisons", f"{n} equality / identity / membership comparisons in {len(classes)} pickled classes: none compares a stored repository object by identity")
+
+
+def _writes_own_state(prog, f: FuncInfo, depth: int = 0, seen: frozenset = frozenset()) -> ast.AST | None:
+    """A statement by which method `f` (or a method it calls on self, two levels) stores into an attribute of its own object; None if it stores nothing."""
+    if f.qualname in seen or depth > 2 or f.self_name is None:
+        return None
+    for x in walk_scope(f.node):
+        tg = None
+        if isinstance(x, ast.Assign):
+            tg = x.targets[0]
+        elif isinstance(x, (ast.AugAssign, ast.AnnAssign)):
+            tg = x.target
+        base = tg
+        while isinstance(base, ast.Subscript):
+            base = base.value
+        if isinstance(base, ast.Attribute) and isinstance(base.value, ast.Name) and base.value.id == f.self_name:
+            return x
+    for c in calls_in(f.node):
+        if isinstance(c.func, ast.Attribute) and isinstance(c.func.value, ast.Name) and c.func.value.id == f.self_name:
+            for t in prog.resolve_call(f, c):
+                if isinstance(t, FuncInfo):
+                    w = _writes_own_state(prog, t, depth + 1, seen | {f.qualname})
+                    if w is not None:
+                        return w
+    return None
+
+
+def r2g_constructor_keeps_components(ctx: Context) -> None:
+    """restore_from_checkpoint hands the *restored* scheduler (with its samplers) and loss to the Calibrator constructor: whatever the constructor does to
+    the objects it receives is done to the restored state too.  The constructor may keep them, read them and seed-independent bookkeeping about them, but
+    it calls no method on them that changes their state (a `reset()`, a warm-up, a re-initialisation)."""
+    prog = ctx.prog
+    init = ctx.func("black_it.calibrator:Calibrator.__init__")
+    comp_params = {p for p in init.params if p in ("scheduler", "samplers", "loss_function")}
+    comp_attrs = {"scheduler", "loss_function"}
+    # locals bound from components (loop variables over scheduler.samplers, aliases)
+    tainted = set(comp_params)
+    changed = True
+    while changed:
+        changed = False
+        for x in ast.walk(init.node):
+            src_e, tgt = None, None
+            if isinstance(x, ast.Assign) and isinstance(x.targets[0], ast.Name):
+                src_e, tgt = x.value, x.targets[0]
+            elif isinstance(x, (ast.For, ast.comprehension)) and isinstance(x.target, ast.Name):
+                src_e, tgt = x.iter, x.target
+            if src_e is None or tgt.id in tainted:
+                continue
+            roots = {y.id for y in ast.walk(src_e) if isinstance(y, ast.Name)} | {y.attr for y in ast.walk(src_e) if isinstance(y, ast.Attribute) and isinstance(y.value, ast.Name) and y.value.id == init.self_name}
+            if roots & (tainted | comp_attrs) and not isinstance(src_e, ast.Call) or (isinstance(src_e, ast.Call) and isinstance(x, (ast.For, ast.comprehension)) and roots & (tainted | comp_attrs)):
+                tainted.add(tgt.id)
+                changed = True
+    n = 0
+    for c in calls_in(init.node, scope_only=False):
+        if not isinstance(c.func, ast.Attribute):
+            continue
+        recv = c.func.value
+        root = recv
+        while isinstance(root, (ast.Attribute, ast.Subscript)):
+            root = root.value
+        on_component = (isinstance(root, ast.Name) and root.id in tainted) or \
+            (isinstance(recv, ast.Attribute) and any(isinstance(y, ast.Attribute) and isinstance(y.value, ast.Name) and y.value.id == init.self_name and y.attr in comp_attrs for y in ast.walk(recv)))
+        if not on_component:
+            continue
+        n += 1
+        targets = [t for t in prog.resolve_call(init, c) if isinstance(t, FuncInfo)]
+        if not targets:
+            # receiver of unknown static type (a loop variable over the line-up): every implementation of that name in the component hierarchies
+            for bname in ("BaseSampler", "BaseScheduler", "BaseLoss"):
+                for k in prog.subclasses(prog.find_class(bname)):
+                    m_ = k.methods.get(c.func.attr)
+                    if m_ is not None:
+                        targets.append(m_)
+        for t in targets:
+            if isinstance(t, FuncInfo):
+                w = _writes_own_state(prog, t)
+                if w is not None:
+                    ctx.fail("R2.constructor-keeps-components", f"Calibrator.__init__:{' '.join(src(c).split())[:50]}",
+                             f"the constructor calls `{' '.join(src(c).split())[:60]}`, and {t.qualname.split(':')[1]} changes the object's state (`{src(w)[:50]}`): restore_from_checkpoint goes "
+                             "through this constructor with the restored scheduler / samplers / loss, so the restored internal state is overwritten and the resumed run diverges", init, c)
+                    break
+    ctx.ok("R2.constructor-keeps-components", "Calibrator.__init__:scanned", f"{n} method call(s) on the scheduler / samplers / loss in the constructor: none changes their state")
